@@ -448,9 +448,10 @@ class Run:
         if len(self.violations) >= 25:
             self.violations.append(None)
             return True
-        os.makedirs(os.path.join(VERIF, "replays"), exist_ok=True)
+        outdir = os.environ.get("VERIF_OUT") or VERIF
+        os.makedirs(os.path.join(outdir, "replays"), exist_ok=True)
         self._nreplay += 1
-        path = os.path.join(VERIF, "replays", "%s-%s-%d-%d.json" % (self.prop, self.tier, self.seed, self._nreplay))
+        path = os.path.join(outdir, "replays", "%s-%s-%d-%d.json" % (self.prop, self.tier, self.seed, self._nreplay))
         with open(path, "w") as f:
             json.dump(dict(property=self.prop, what=what, replay=replay,
                            cmd="bin/check %s --replay %s" % (self.prop, path)), f, indent=1, ensure_ascii=False)
@@ -482,8 +483,10 @@ class Run:
                   violations=len(self.violations),
                   known_findings=[k["id"] for k in self.known])
         if not self.replay:
-            os.makedirs(os.path.join(VERIF, "evidence"), exist_ok=True)
-            with open(os.path.join(VERIF, "evidence", self.prop + ".json"), "w") as f:
+            # VERIF_OUT (development aid, never set by the registered commands): evidence and replays of a trial run go elsewhere
+            outdir = os.environ.get("VERIF_OUT") or VERIF
+            os.makedirs(os.path.join(outdir, "evidence"), exist_ok=True)
+            with open(os.path.join(outdir, "evidence", self.prop + ".json"), "w") as f:
                 json.dump(ev, f, indent=1, ensure_ascii=False)
         log("%s %s: evaluations=%d nontrivial=%d states=%d violations=%d known=%d wall=%.1fs" % (
             self.prop, self.tier, cov["evaluations"], cov["distinct_nontrivial"], self.states,
